@@ -102,9 +102,10 @@ var c17Pins = []c17Pin{
 			_ = yield(map[string]interface{}{"a\n": 1.0, "aA": 2.0}, c17Op{Kind: "Lookup", Path: "$.aA"}) &&
 				yield(map[string]interface{}{"a\n": 1.0, "aA": 2.0}, c17Op{Kind: "Insert", Path: "$.aB", Val: 3.0})
 		}},
-	{c17FEmptyKey, "the path member \"\" ($.\"\") is rejected by the stored document ('Expected field name after .'); in memory (and in MySQL) it names the member with the empty name",
+	{c17FEmptyKey, "the path member \"\" ($.\"\") is rejected by the stored document ('Expected field name after .'); in memory (and in MySQL) it names the member with the empty name; an object that has such a member also mis-orders [0] (the empty name sorts before index 0 in compareJsonLocations): Replace($[0],false) on {\"\":[1],\"ab\":2} is a no-op",
 		func(yield func(interface{}, ...c17Op) bool) {
-			_ = yield(map[string]interface{}{"": 1.0, "ab": 2.0}, c17Op{Kind: "Lookup", Path: `$.""`})
+			_ = yield(map[string]interface{}{"": 1.0, "ab": 2.0}, c17Op{Kind: "Lookup", Path: `$.""`}) &&
+				yield(map[string]interface{}{"": []interface{}{1.0}, "ab": 2.0}, c17Op{Kind: "Replace", Path: "$[0]", Val: false})
 		}},
 }
 
